@@ -92,6 +92,30 @@ CHECKS = {
         "trusted: pool construction in mc/checks/c17.py; the weaker (title-normalised, numeric-by-value) reading of 'same JSON Schema'",
         "exhaustive enumeration of ordered element pairs, equality-implies-indistinguishability oracle",
     ),
+    "C11": (
+        "E1-lattice",
+        "Every labelled digraph with self-loops on n<=3 classes (thorough: n=4) is realised on real model classes through each of 15 dependency positions (cycles by assignment after class creation) under several root sets, plus all <=3-edge graphs under mixed position assignments (seed-rotated slice); the real orderer runs under a call-event budget and its output is compared with a DFS reference that is cross-checked with networkx.",
+        "trusted: mc/checks/c11.reference (cross-checked against networkx on every case); distinct class names",
+        "exhaustive enumeration of small dependency graphs x keyword positions on the real orderer, reference topological-order/cycle oracle",
+    ),
+    "C12": (
+        "E1-lattice",
+        "All 1,114,112 code points, alone and in 5 contexts, all <=3-symbol strings over a 12-symbol alphabet, all keywords / dir(object) / machinery attribute names go through the real name mapper and are judged (identifier, not keyword, not reserved, NFKC-stable); every name whose image differs from itself is parsed together with its image and with its NFKC form as siblings of one object (both must survive); titles: a separator lemma is checked for every code point in 3 contexts and all ASCII/Latin-1 titles, module-used names and category representatives are generated and executed.",
+        "trusted: the separator-lemma reduction for titles (checked exhaustively at mapper level); strings with more than one arbitrary code point outside the fixed contexts are not covered",
+        "exhaustive enumeration over the Unicode code-point alphabet in fixed contexts + behavioural sibling/title layer on the real parser and generator",
+    ),
+    "C18": (
+        "E1-lattice",
+        "Every element of the DSL family (each element class x every keyword subset of size <=3, thorough 4, x literal choices), a 25-literal alphabet under const/default/enum, nested elements, compositions, arrays and property wrappers in every binding state: repr is evaluated in a namespace of the public classes and compared with the original, and the repr's AST keyword set is compared with the set of non-default constructor arguments.",
+        "trusted: type-strict 'differs from the constructor default' judgement in mc/checks/c18.py; bound properties are re-bound before comparison (weaker reading)",
+        "exhaustive enumeration of DSL-constructible elements, eval(repr(x)) == x and AST keyword-set oracle",
+    ),
+    "C19": (
+        "E1-lattice",
+        "Every pool element (DSL family, compositions nested to depth 2 over typed/untyped/class members, tuple items with and without additionalItems, parser image of lattice schemas) is placed under an optional and a required property and as array items of a fresh model; for every alphabet value the model accepts (+ omission) the runtime attribute is judged structurally against the annotation taken from the generated property line.",
+        "trusted: structural judge in mc/checks/c19.py; defaults restricted to valid ones; one recorded design conflict (AllOf annotation vs first-member result) listed in known_findings.json with a two-part predicate",
+        "exhaustive enumeration of element placements x accepted values on the real code, structural type-membership oracle",
+    ),
 }
 
 PENDING_REASON = "check not built yet in this session (planned in DESIGN.md section 4); no claim is made until its machinery exists"
